@@ -190,7 +190,7 @@ Print Assumptions C02_file_row_refusals_agree.
 From XcpProofs Require Import WalkerProofs XWalker.
 From Coq Require Import String.
 Theorem C02_link_operand_is_one_action : forall cfg keep dexists text res,
-  w_deref cfg = false -> keep [] (tree_is_dir (TLink text res)) = true ->
+  w_deref cfg = false -> keep [] (tree_is_dir false (TLink text res)) = true ->
   walk cfg keep dexists [] (TLink text res) =
     if w_no_clobber cfg && dexists [] then ([WErr 1 []], false) else ([WLink [] text], true).
 Proof. exact link_operand_is_one_action. Qed.
@@ -201,3 +201,9 @@ Print Assumptions C02_link_operand_is_one_action.
 Print Assumptions C02_src_root_link_followed_iff_deref.
 Print Assumptions C02_src_pin_paths_ignore_filter.
 Print Assumptions C02_src_pin_paths_parse_ignore.
+
+(* ---- the destination's parent directory is missing: refused for every source kind whose creating call cannot make the
+   ancestors (a failed step, never `the source vanished`); compared with the binary on every run ---- *)
+Theorem C02_parent_missing_refused_unless_directory : forall s, s <> SDir -> parent_missing_outcome s = Refused.
+Proof. exact parent_missing_refused_unless_directory. Qed.
+Print Assumptions C02_parent_missing_refused_unless_directory.
